@@ -32,6 +32,8 @@ EMPTY_SIG = "fileno-mismatch:spurious-readable:empty-feed"
 
 
 class StubTransport:
+    server_object = None
+
     def _unlink_channel(self, chanid):
         pass
 
@@ -586,6 +588,13 @@ def run(ctx):
         ctx.broken.append({"kind": "model-parameter", "what": "BufferedPipe.feed",
                            "detail": "feed() raises the event for empty data; the theorem is about the guarded feed"})
 
+    import paramiko.channel as chanmod
+    offenders = pipe_writers(chanmod)
+    ctx.extra["channel_pipe_writers_outside_fileno_eof_close"] = offenders
+    for o in offenders:
+        ctx.broken.append({"kind": "ast-fact", "what": "channel.py " + o,
+                           "detail": "the channel's OS pipe is touched outside the OrPipe halves wired by fileno() and "
+                                     "set_forever() in _handle_eof/_set_closed: the model does not describe that"})
     rng = ctx.rng
     world_box = [World()]
     rigs = []
@@ -741,6 +750,37 @@ def run(ctx):
                         break
                 rig.impl = []
                 rig.conclude([seq_world])
+        # peer messages that must not change readability (requests, window adjusts, request replies), from every kind
+        # of quiescent state after fileno(); each is followed by the oracle
+        for setup in (["fileno"], ["fileno", "feed1"], ["fileno", "feed1", "drain1"], ["fileno", "feed2", "drain2"],
+                      ["fileno", "feederr", "drain2"], ["combineon", "fileno", "feederr", "drain1"],
+                      ["feed1", "fileno", "drain1"], ["fileno", "feed2"], ["fileno", "eof"]):
+            for kind in INERT:
+                rig = Rig(seq_world, table)
+                for op in setup:
+                    rig.op_fn(op)()
+                before = rig.oracle()
+                try:
+                    inert_message(rig.ch, kind)()
+                    bad = rig.oracle()
+                    ctx.case(("inert", tuple(setup), kind), False)
+                    ctx.dist("inert-message:" + kind)
+                    if bad and not before:
+                        ctx.fail(bad[0] + ":after-" + kind, {"setup": setup, "then-peer-message": kind}, bad[1])
+                    # ... and draining afterwards leaves a consistent descriptor too
+                    for op in ("drain1", "drain2"):
+                        rig.op_fn(op)()
+                    bad2 = rig.oracle()
+                    if bad2 and not bad and not before:
+                        ctx.fail(bad2[0] + ":after-" + kind + "+drain", {"setup": setup, "then-peer-message": kind},
+                                 bad2[1])
+                except InfraError:
+                    raise
+                except Exception as e:
+                    from pv.core import exc_site
+                    ctx.fail("unexpected-exception:" + exc_site(e), {"setup": setup, "peer-message": kind}, repr(e))
+                rig.impl = []
+                rig.conclude([seq_world])
     finally:
         seq_world.close()
 
@@ -793,6 +833,82 @@ def run(ctx):
                 ctx.fail(ar.rig.final_fail[0], {"atomic": ar.reqs}, ar.rig.final_fail[1])
         else:
             ctx.fail("deadlock", {"atomic": ar.reqs}, ar.impl[-1])
+
+
+def pipe_writers(chanmod):
+    """AST fact about channel.py: the state of the channel's OS pipe is written only through the OrPipe halves wired by
+    fileno() (i.e. by the BufferedPipe events) and by `set_forever()` in `_handle_eof` / `_set_closed`.  Returns the list
+    of offending uses of `self._pipe`: a direct `.set()` / `.clear()`, `.set_forever()` anywhere else, or the object
+    escaping into a local / an argument outside fileno()."""
+    import ast
+
+    tree = ast.parse(open(chanmod.__file__).read())
+    cls = next(n for n in tree.body if isinstance(n, ast.ClassDef) and n.name == "Channel")
+    bad = []
+
+    def is_pipe(n):
+        return (isinstance(n, ast.Attribute) and n.attr == "_pipe" and isinstance(n.value, ast.Name)
+                and n.value.id == "self")
+
+    for fn in cls.body:
+        if not isinstance(fn, ast.FunctionDef):
+            continue
+        parents = {}
+        for node in ast.walk(fn):
+            for ch in ast.iter_child_nodes(node):
+                parents[ch] = node
+        for node in ast.walk(fn):
+            if not is_pipe(node):
+                continue
+            par = parents.get(node)
+            where = "%s line %d" % (fn.name, node.lineno)
+            if isinstance(par, ast.Attribute):          # self._pipe.<attr>
+                attr = par.attr
+                if attr in ("fileno", "close"):
+                    continue
+                if attr == "set_forever" and fn.name in ("_handle_eof", "_set_closed"):
+                    continue
+                bad.append("%s: self._pipe.%s" % (where, attr))
+            elif isinstance(par, ast.Compare):          # self._pipe is (not) None
+                continue
+            elif isinstance(par, ast.Assign) and node in par.targets:
+                if fn.name in ("__init__", "close", "fileno"):
+                    continue
+                bad.append("%s: self._pipe assigned" % where)
+            elif isinstance(par, ast.Call) and fn.name == "fileno":
+                continue                                 # pipe.make_or_pipe(self._pipe)
+            else:
+                bad.append("%s: self._pipe used as a value (%s)" % (where, type(par).__name__))
+    return bad
+
+
+def inert_message(ch, kind):
+    """peer messages a select()-ed channel handles that must not change the readability of its descriptor"""
+    from paramiko.message import Message
+
+    m = Message()
+    if kind == "exit-status":
+        m.add_string("exit-status"); m.add_boolean(False); m.add_int(3); m.rewind()
+        return lambda: ch._handle_request(m)
+    if kind == "exit-signal":
+        m.add_string("exit-signal"); m.add_boolean(False); m.add_string("TERM"); m.add_boolean(False)
+        m.add_string(""); m.add_string(""); m.rewind()
+        return lambda: ch._handle_request(m)
+    if kind == "xon-xoff":
+        m.add_string("xon-xoff"); m.add_boolean(False); m.add_boolean(True); m.rewind()
+        return lambda: ch._handle_request(m)
+    if kind == "unknown-want-reply":
+        m.add_string("no-such-request@example.org"); m.add_boolean(True); m.rewind()
+        return lambda: ch._handle_request(m)
+    if kind == "window-adjust":
+        m.add_int(4096); m.rewind()
+        return lambda: ch._window_adjust(m)
+    if kind == "request-success":
+        return lambda: ch._request_success(m)
+    raise InfraError("C24: inert message " + kind)
+
+
+INERT = ["exit-status", "exit-signal", "xon-xoff", "unknown-want-reply", "window-adjust", "request-success"]
 
 
 def guard_in_feed(bpmod):
